@@ -59,6 +59,11 @@ func (w *world) refsUsage(pos position, key string, st setting, segs []segment) 
 		return
 	}
 	opts := append(st.opts(pos.sep), ucfg.VarExp)
+	if w.val%2 == 0 {
+		// EscapePath only concerns names of the form [..]: no key of the universe, the oracle is unchanged
+		opts = append(opts, ucfg.EscapePath())
+		w.res.Ev("reference_cases_with_escapepath", 1)
+	}
 	V := "v" + strconv.FormatInt(w.val, 10)
 	in := map[string]interface{}{key: V, "rn": key}
 	for _, f := range refForms {
